@@ -828,10 +828,12 @@ def _run_o1(spec: dict[str, Any], ctx: Ctx) -> None:
         ctx.seen("subjects", case["subject"])
         if o1.last_status == "ok" and kind == "filters" and case["subject"] in fnames:
             ctx.seen("filters_applied", case["subject"])
-        last = case
+        if last is None or (o1.last_status == "ok" and not last.get("_ok")):
+            last = dict(case, _ok=o1.last_status == "ok")
     if last:
-        ctx.sample({"kind": kind, "templates": last["templates"], "api": last["api"],
-                    "mode": last["mode"], "data_layers": {k: sorted(v)[:4] for k, v in o1.U.layers.items()}})
+        ctx.sample({"kind": kind, "subject": last["subject"], "templates": last["templates"],
+                    "api": last["api"], "mode": last["mode"], "rendered_ok": last["_ok"],
+                    "data_layers": {k: sorted(v)[:4] for k, v in o1.U.layers.items()}})
 
 
 def _selftest(ctx: Ctx) -> None:
